@@ -31,6 +31,9 @@ Err(e, why) == IF PrintT(<<"ERR", ToJson([line |-> l, run |-> e.run, why |-> why
                                           wrapped |-> SlotOf(e) \in wrapped,
                                           copied |-> SlotOf(e) \in copied])>>) THEN errs + 1 ELSE errs
 
+RECURSIVE ErrAll(_, _, _)
+ErrAll(e, whys, acc) == IF whys = <<>> THEN acc ELSE ErrAll(e, Tail(whys), Err(e, Head(whys)) - errs + acc)
+
 Init == l = 1 /\ slots = <<>> /\ skip = FALSE /\ errs = 0 /\ cleared = {} /\ wrapped = {} /\ copied = {}
 
 \* why a logged length table is not an optimal code for the spec's statistics
@@ -58,15 +61,15 @@ Step(e) ==
              ELSE IF refuse
                   THEN errs' = Err(e, "symbol-outside-statistics-was-stored") /\ skip' = TRUE /\ UNCHANGED slots
                   ELSE LET want == nsl.issued[Len(nsl.issued)].idx
-                           why == IF e.idx # want THEN "bit-range-differs"
-                                  ELSE IF e.read_err # "" THEN "read-failed"
-                                  ELSE IF e.read # e.v THEN "read-differs"
-                                  ELSE IF ~e.stable THEN "earlier-item-changed"
-                                  ELSE IF ~e.onto_ok THEN "clone-onto-differs"
-                                  ELSE "ok"
-                       IN  IF why = "ok"
+                           \* every failing check is reported: a wrong read must not hide a changed earlier item
+                           whys == (IF e.idx # want THEN <<"bit-range-differs">> ELSE <<>>)
+                                   \o (IF e.read_err # "" THEN <<"read-failed">>
+                                       ELSE IF e.read # e.v THEN <<"read-differs">> ELSE <<>>)
+                                   \o (IF ~e.stable THEN <<"earlier-item-changed">> ELSE <<>>)
+                                   \o (IF ~e.onto_ok THEN <<"clone-onto-differs">> ELSE <<>>)
+                       IN  IF whys = <<>>
                            THEN slots' = [slots EXCEPT ![e.s] = nsl] /\ UNCHANGED <<skip, errs>>
-                           ELSE errs' = Err(e, why) /\ skip' = TRUE /\ UNCHANGED slots
+                           ELSE errs' = ErrAll(e, whys, errs) /\ skip' = TRUE /\ UNCHANGED slots
     [] e.ev = "merge" ->
          LET counts == HMergedCounts([i \in 1..Len(e.srcs) |-> slots[e.srcs[i]]])
          IN  IF e.panic
